@@ -685,11 +685,15 @@ type c07Snap struct {
 
 type c07Events map[string]map[string]int // actor name -> event kind -> count
 
-func (ev c07Events) add(name, kind string) {
+func (ev c07Events) add(name, kind, path string) {
 	if ev[name] == nil {
 		ev[name] = map[string]int{}
 	}
 	ev[name][kind]++
+	if ev["#paths"] == nil {
+		ev["#paths"] = map[string]int{}
+	}
+	ev["#paths"][kind+" "+path]++
 }
 
 func (ev c07Events) get(name, kind string) int { return ev[name][kind] }
@@ -1093,7 +1097,7 @@ func c07RunCase(env *c07Env, c *c07Case, rng *rand.Rand) (res c07CaseResult) {
 			return fmt.Sprintf("%s:%s:%s:%s", aspect, exp.directive, exp.strategy, exp.per[n].role)
 		}
 		detail := func(n *c07Node, extra map[string]any) map[string]any {
-			d := map[string]any{"step": stepText, "actor": n.label, "pre": fmt.Sprintf("%+v", pre[n]), "post": fmt.Sprintf("%+v", post[n]), "events": fmt.Sprint(ev[n.name]), "error_type": c07KindType(it.Kind), "fault_counter_model": fmt.Sprintf("[%d,%d] max=%d window=%s", target.cntLo, target.cntHi, cfg.maxRetries(), cfg.window())}
+			d := map[string]any{"step": stepText, "actor": n.label, "pre": fmt.Sprintf("%+v", pre[n]), "post": fmt.Sprintf("%+v", post[n]), "events": fmt.Sprint(ev[n.name]), "all_events_of_step": fmt.Sprint(ev["#paths"]), "sched": fmt.Sprintf("state=%s mailboxEmpty=%v sysEmpty=%v", vfSchedStateName(n.pid), n.pid.mailbox.IsEmpty(), n.pid.systemMailbox.IsEmpty()), "error_type": c07KindType(it.Kind), "fault_counter_model": fmt.Sprintf("[%d,%d] max=%d window=%s", target.cntLo, target.cntHi, cfg.maxRetries(), cfg.window())}
 			for k, v := range extra {
 				d[k] = v
 			}
@@ -1283,23 +1287,27 @@ func TestVerif_C07(t *testing.T) {
 	env := &c07Env{t: t, sys: sys, fence: fence}
 	env.drain = func(prefix string, into c07Events) {
 		for m := range sub.Iterator() {
-			var name, kind string
+			var path Path
+			var kind string
 			switch e := m.Payload().(type) {
 			case *ActorSuspended:
-				name, kind = e.ActorPath().Name(), "suspended"
+				path, kind = e.ActorPath(), "suspended"
 			case *ActorRestarted:
-				name, kind = e.ActorPath().Name(), "restarted"
+				path, kind = e.ActorPath(), "restarted"
 			case *ActorStopped:
-				name, kind = e.ActorPath().Name(), "stopped"
+				path, kind = e.ActorPath(), "stopped"
 			case *ActorStarted:
-				name, kind = e.ActorPath().Name(), "started"
+				path, kind = e.ActorPath(), "started"
 			case *ActorReinstated:
-				name, kind = e.ActorPath().Name(), "reinstated"
+				path, kind = e.ActorPath(), "reinstated"
 			default:
 				continue
 			}
-			if strings.HasPrefix(name, prefix+"-") {
-				into.add(name, kind)
+			if path == nil {
+				continue
+			}
+			if name := path.Name(); strings.HasPrefix(name, prefix+"-") {
+				into.add(name, kind, path.String())
 				evSeen++
 			}
 		}
